@@ -28,7 +28,7 @@ package executor
 //@ func Executor.traverse
 //@   lenient
 //@   safety off
-//@   modifies alloc, nStart, nTraversed
+//@   modifies alloc, nStart, nTraversed, pauseTokens
 //@   callsite Executor.startRemoteRequest: assert nStart == old(nStart) && dyntype(result.Err) == typetag("graphsync.RemoteMissingBlockErr")
 //@   loop 1 invariant nStart == old(nStart) + ite(requestSent, 1, 0)
 //@   ensures nStart <= old(nStart) + 1
